@@ -135,6 +135,7 @@ type Interp struct {
 	known          map[string]bool
 	permuteMaps    bool
 	top            *Frame
+	ckptFS         map[string][]Value
 }
 
 func (fr *Frame) get(key ssa.Value) Value {
